@@ -50,6 +50,7 @@ M = [
  ("dealloc_accepts_embedded", "C19", "src/Alloc.c", "  if (header(self)->alloc is (var)AllocData) {\n    throw(ResourceError,", 1, "  if (false) {\n    throw(ResourceError,", "dealloc of a container-embedded object is not refused"),
  ("array_get_neg_only_checked", "C18", "src/Array.c", "  i = i < 0 ? a->nitems+i : i;\n  \n#if CELLO_BOUND_CHECK == 1\n  if (i < 0 or i >= (int64_t)a->nitems) {\n    return throw(", 1, "  \n#if CELLO_BOUND_CHECK == 1\n  i = i < 0 ? a->nitems+i : i;\n  if (i < 0 or i >= (int64_t)a->nitems) {\n    return throw(", "negative indices resolved only in checked builds"),
  ("join_returns_early", "C13", "src/Thread.c", "  int err = pthread_join(t->thread, NULL);", 1, "  int err = 0; { static int n; if (++n % 3) err = pthread_join(t->thread, NULL); }", "every third join returns without waiting"),
+ ("thread_exit_keeps_collector", "C13", "src/Thread.c", "  del_raw(exc);\n  \n#ifndef CELLO_NGC\n  del_raw(gc);\n#endif", 1, "  del_raw(exc);\n  \n#ifndef CELLO_NGC\n  (void)gc;\n#endif", "a finished thread does not tear its collector down (objects it still managed are never finalised)"),
  ("tuple_popat_keep_last", "C04", "src/Tuple.c", None, 1, None, "placeholder"),
 ]
 
